@@ -10,7 +10,7 @@ abbrev Bitmap := Array Bool
 
 def words (b : Bitmap) : Nat := b.size / 64
 
-def get (b : Bitmap) (i : Nat) : Bool := b.getD i false
+def get (b : Bitmap) (i : Nat) : Bool := (b[i]?).getD false
 
 /-- `Bitmap.Grow(bit)` / `grow(blkAt)`: at least `bit/64 + 1` words -/
 def growTo (b : Bitmap) (nwords : Nat) : Bitmap :=
